@@ -56,11 +56,11 @@ type xMsg struct {
 }
 
 type msgTable struct {
-	env   *csEnv
-	byKey map[string]int
-	msgs  []*xMsg
-	blocks map[string]*fBlock // named blocks (for block-result events)
-	psIDs [][]byte // known part-set hashes (for the bpmCache projection)
+	env      *csEnv
+	byKey    map[string]int
+	msgs     []*xMsg
+	blocks   map[string]*fBlock // named blocks (for block-result events)
+	psIDs    [][]byte           // known part-set hashes (for the bpmCache projection)
 	blkNames map[string]string
 }
 
@@ -88,7 +88,9 @@ func (mt *msgTable) precommitOf(signer int, round int32, block string) int32 {
 }
 
 // namePS names a part-set hash (proposals and block parts carry it, not the block id).
-func (mt *msgTable) namePS(hash []byte, name string) { mt.blkNames["ps:"+hex.EncodeToString(hash)] = name }
+func (mt *msgTable) namePS(hash []byte, name string) {
+	mt.blkNames["ps:"+hex.EncodeToString(hash)] = name
+}
 
 func (mt *msgTable) psName(hash []byte) string {
 	if n, ok := mt.blkNames["ps:"+hex.EncodeToString(hash)]; ok {
@@ -186,11 +188,14 @@ func (mt *msgTable) intern(proto uint16, b []byte) int {
 type lState struct {
 	id       int32
 	key      string
-	hist     []hEv // shortest known local history
-	alt      []hEv // a different history reaching the same key (for the differential check)
-	fin      string  // finalized block id at height 1 ("" if none)
+	hist     []hEv  // shortest known local history
+	alt      []hEv  // a different history reaching the same key (for the differential check)
+	fin      string // finalized block id at height 1 ("" if none)
 	finRound int32
-	finOK    bool   // independent recount of the commit certificate succeeded
+	progress int64    // (height, round, step) packed
+	fins     []string // finalized block ids, height 1.. (the explored heights)
+	finRnds  []int32
+	finOK    bool // independent recount of the commit certificate succeeded
 	finWhy   string
 	panicked string
 	equiv    string
@@ -223,31 +228,32 @@ type lKey struct {
 }
 
 type xStats struct {
-	engineSteps   int // events applied on real engines (incl. replays)
-	memoMiss      int
-	rebuilds      int
-	diffChecks    int
-	diffMismatch  int
-	localStates   int
+	engineSteps  int // events applied on real engines (incl. replays)
+	memoMiss     int
+	rebuilds     int
+	diffChecks   int
+	diffMismatch int
+	localStates  int
 }
 
 type explorer struct {
-	env   *csEnv
-	mt    *msgTable
-	n     int
-	correct []int // indices of correct (real) nodes
-	maxRound int32
+	env       *csEnv
+	mt        *msgTable
+	n         int
+	correct   []int // indices of correct (real) nodes
+	maxRound  int32
+	maxHeight int // heights explored per validator (0 = 1): a validator that finalized that many is terminal
 
-	states [][]*lState          // per node
-	byKey  []map[string]int32   // per node
-	memo   []map[lKey]lStep     // per node
-	live   []map[int32]*csNode  // per node: live engine instances by current local state
-	stats  xStats
-	mismatch []string
-	menuIdx  map[int32]int
-	brs      []brDesc
-	diffEvery int // run the differential projection check on every diffEvery-th memo miss (<=1: all)
-	nodeHook func(n *csNode) // applied to every fresh node (e.g. WAL factory side effects)
+	states    [][]*lState         // per node
+	byKey     []map[string]int32  // per node
+	memo      []map[lKey]lStep    // per node
+	live      []map[int32]*csNode // per node: live engine instances by current local state
+	stats     xStats
+	mismatch  []string
+	menuIdx   map[int32]int
+	brs       []brDesc
+	diffEvery int             // run the differential projection check on every diffEvery-th memo miss (<=1: all)
+	nodeHook  func(n *csNode) // applied to every fresh node (e.g. WAL factory side effects)
 }
 
 func newExplorer(env *csEnv, correct []int, maxRound int32) *explorer {
@@ -370,19 +376,52 @@ func (x *explorer) describe(n *csNode) *lState {
 		st.step = int32(n.cs.step)
 		st.locked = n.cs.lockedRound
 		st.timers = len(n.pendingTimers())
+		// how far the validator has come: the default scheduler lets the least advanced one time out first
+		st.progress = (int64(n.cs.height)<<32 | int64(n.cs.round)<<8 | int64(n.cs.step))
 		st.pend = len(n.bm.live())
 		st.late = len(n.bm.zombies())
 	}
 	if len(n.finalized) > 0 {
 		st.fin = n.finalized[0]
 		st.finRound = n.finalizedRound[0]
+		st.fins = append([]string(nil), n.finalized...)
+		st.finRnds = append([]int32(nil), n.finalizedRound...)
 		st.finOK, st.finWhy = n.finCertOK, n.finCertWhy
-		st.terminal = true
+		// a validator is done when it has finalized the last explored height
+		st.terminal = len(n.finalized) >= x.heights()
 	}
 	if n.dead() || st.round > x.maxRound {
 		st.terminal = true
 	}
 	return st
+}
+
+func (x *explorer) heights() int {
+	if x.maxHeight < 1 {
+		return 1
+	}
+	return x.maxHeight
+}
+
+// finDesc names what a validator has finalized: "V0=B1@r0" or, with two explored
+// heights, "V0=B1@r0+B5@r1".
+func (x *explorer) finDesc(i int, st *lState) string {
+	parts := make([]string, len(st.fins))
+	for h, f := range st.fins {
+		parts[h] = fmt.Sprintf("%s@r%d", x.mt.blockName(unhex(f)), st.finRnds[h])
+	}
+	return fmt.Sprintf("V%d=%s", i, strings.Join(parts, "+"))
+}
+
+// finConflict returns the first height (1-based) at which both validators have
+// finalized and the blocks differ, 0 if there is none.
+func finConflict(a, b *lState) int {
+	for h := 0; h < len(a.fins) && h < len(b.fins); h++ {
+		if a.fins[h] != b.fins[h] {
+			return h + 1
+		}
+	}
+	return 0
 }
 
 func (x *explorer) internState(i int, n *csNode, hist []hEv) *lState {
@@ -566,16 +605,16 @@ type gEvent struct {
 	Proto uint16 `json:"proto,omitempty"`
 	Bytes string `json:"bytes,omitempty"`
 	K     int    `json:"k,omitempty"`
-	Blk   string `json:"block,omitempty"` // raw block bytes of a block-result event (Bytes = commit vote list)
+	Blk   string `json:"block,omitempty"`               // raw block bytes of a block-result event (Bytes = commit vote list)
 	Fail  int    `json:"crash_before_effect,omitempty"` // the step is interrupted by a crash before this effect (WAL write / WAL sync / send), then the node restarts
 }
 
 type searchCfg struct {
-	maxCrashes  int
-	maxStates   int
-	maxDepth    int
-	stop        func() bool
-	initialBag  []int32
+	maxCrashes int
+	maxStates  int
+	maxDepth   int
+	stop       func() bool
+	initialBag []int32
 	// onlyRelevant restricts deliveries to messages of the current height
 	crashable   func(node int, st *lState) bool
 	crashInside bool // also crash inside every step, before each WAL write / WAL sync / send
@@ -606,7 +645,7 @@ func (x *explorer) search(cfg searchCfg) *gResult {
 	}
 	check := func(g gState, id int32) {
 		var fins []string
-		first := ""
+		var first *lState
 		for _, i := range x.correct {
 			st := x.states[i][g.L[i]]
 			if st.panicked != "" {
@@ -619,14 +658,14 @@ func (x *explorer) search(cfg searchCfg) *gResult {
 				report(g, id, "sent-before-durable", fmt.Sprintf("correct validator V%d: %s", i, st.notDur))
 			}
 			if st.fin != "" {
-				fins = append(fins, fmt.Sprintf("V%d=%s@r%d", i, x.mt.blockName(unhex(st.fin)), st.finRound))
+				fins = append(fins, x.finDesc(i, st))
 				if !st.finOK {
-					report(g, id, "finalize-without-quorum", fmt.Sprintf("node V%d finalized %s in round %d but the independent recount of its precommits fails: %s", i, st.fin, st.finRound, st.finWhy))
+					report(g, id, "finalize-without-quorum", fmt.Sprintf("node V%d finalized %s but the independent recount of its precommits fails: %s", i, x.finDesc(i, st), st.finWhy))
 				}
-				if first == "" {
-					first = st.fin
-				} else if first != st.fin {
-					report(g, id, "disagreement", fmt.Sprintf("two correct validators finalized different blocks at height 1: %v", fins))
+				if first == nil {
+					first = st
+				} else if h := finConflict(first, st); h > 0 {
+					report(g, id, "disagreement", fmt.Sprintf("two correct validators finalized different blocks at height %d: %v", h, fins))
 				}
 			}
 		}
@@ -801,7 +840,7 @@ func replayTraceFull(env *csEnv, correct []int, tr []gEvent, hook func(n *csNode
 			c02[i] = [2]string{n.equivocated, n.notDurable}
 		}
 		if len(n.finalized) > 0 {
-			fins[i] = n.finalized[0]
+			fins[i] = strings.Join(n.finalized, "+")
 			certOK[i] = n.finCertOK
 		}
 		if n.panicked != "" {
@@ -874,20 +913,20 @@ type dAction struct {
 }
 
 type devCfg struct {
-	maxDev     int
-	maxCrashes int
-	menu       []int32
-	byz        int
-	stop       func() bool
-	maxStates  int
-	reorder    bool
-	crashInside bool // deviation: crash inside the default next step, before each of its effects
-	lagNode    int  // votes reach this node last in the default schedule (-1: none); proposals and parts are in time
-	pcFirst    bool // default scheduler delivers precommits before other messages
-	lagParts   bool // the lagging node gets votes in time and proposals/block parts late (instead of the reverse)
+	maxDev       int
+	maxCrashes   int
+	menu         []int32
+	byz          int
+	stop         func() bool
+	maxStates    int
+	reorder      bool
+	crashInside  bool             // deviation: crash inside the default next step, before each of its effects
+	lagNode      int              // votes reach this node last in the default schedule (-1: none); proposals and parts are in time
+	pcFirst      bool             // default scheduler delivers precommits before other messages
+	lagParts     bool             // the lagging node gets votes in time and proposals/block parts late (instead of the reverse)
 	preAllowNode map[int]allowSet // Byzantine strategy, per receiving node (overrides preAllow for that node)
-	preAllow   allowSet  // Byzantine strategy: menu entries released to every node from the start
-	prefix     []dAction // base schedule applied before the search starts (cost 0)
+	preAllow     allowSet         // Byzantine strategy: menu entries released to every node from the start
+	prefix       []dAction        // base schedule applied before the search starts (cost 0)
 }
 
 type devResult struct {
@@ -1003,7 +1042,7 @@ func (x *explorer) searchDev(cfg devCfg) *devResult {
 	}
 	check := func(s *dState) {
 		var fins []string
-		first := ""
+		var first *lState
 		for _, i := range x.correct {
 			st := x.states[i][s.L[i]]
 			if st.panicked != "" {
@@ -1016,14 +1055,14 @@ func (x *explorer) searchDev(cfg devCfg) *devResult {
 				report("sent-before-durable", fmt.Sprintf("correct validator V%d: %s", i, st.notDur))
 			}
 			if st.fin != "" {
-				fins = append(fins, fmt.Sprintf("V%d=%s@r%d", i, x.mt.blockName(unhex(st.fin)), st.finRound))
+				fins = append(fins, x.finDesc(i, st))
 				if !st.finOK {
-					report("finalize-without-quorum", fmt.Sprintf("node V%d finalized %s in round %d but the independent recount of its precommits fails: %s", i, st.fin, st.finRound, st.finWhy))
+					report("finalize-without-quorum", fmt.Sprintf("node V%d finalized %s but the independent recount of its precommits fails: %s", i, x.finDesc(i, st), st.finWhy))
 				}
-				if first == "" {
-					first = st.fin
-				} else if first != st.fin {
-					report("disagreement", fmt.Sprintf("two correct validators finalized different blocks at height 1: %v", fins))
+				if first == nil {
+					first = st
+				} else if h := finConflict(first, st); h > 0 {
+					report("disagreement", fmt.Sprintf("two correct validators finalized different blocks at height %d: %v", h, fins))
 				}
 			}
 		}
@@ -1109,11 +1148,25 @@ func (x *explorer) searchDev(cfg devCfg) *devResult {
 				}
 			}
 		}
+		// nothing to deliver: a timer fires. With one explored height the lowest node
+		// goes first; with several heights the least advanced validator (height, round,
+		// step) goes first, so that every validator's new-height wait ends before
+		// anybody's propose timeout does, as in a synchronous run (all consensus
+		// timeouts have the same length, so durations cannot order them).
+		best := -1
 		for _, i := range x.correct {
 			st := x.states[i][s.L[i]]
 			if !st.terminal && st.timers > 0 {
-				return dAction{kind: "ev", node: i, ev: evTimer}, true
+				if x.heights() == 1 {
+					return dAction{kind: "ev", node: i, ev: evTimer}, true
+				}
+				if best < 0 || st.progress < x.states[best][s.L[best]].progress {
+					best = i
+				}
 			}
+		}
+		if best >= 0 {
+			return dAction{kind: "ev", node: best, ev: evTimer}, true
 		}
 		return dAction{}, false
 	}
@@ -1154,6 +1207,11 @@ func (x *explorer) searchDev(cfg devCfg) *devResult {
 		} else {
 			res.executions++
 			res.devUsed[used]++
+			if res.executions == 1 && os.Getenv("VERIF_DEBUG_TRACE") != "" {
+				for k, a := range path {
+					fmt.Printf("TRACE %3d %s V%d %s\n", k, a.kind, a.node, x.evName(a.ev))
+				}
+			}
 		}
 		if budget == 0 || stopped {
 			return
